@@ -73,7 +73,9 @@ PROP = {
              "checksum over (key, tag, representation tag with raw state byte or heap capacity, values in order) of every value array; "
              "every 16 ops the property oracle (std::map<key, vector<value>>) checks per-key counts and order, total, value-less keys, absent "
              "keys, pair and key traversal. Wrapper: unordered_multimap / unordered_multimap_open with the default and with a family hasher "
-             "(real BucketOpen8 and its BucketOpen2N2 fallback) against std::unordered_multimap: insert/emplace, count, equal_range, find, "
+             "(transparent, so that the heterogeneous find / count / contains / equal_range overloads are called for every key incl. value-less ones) "
+             "(real BucketOpen8 and its BucketOpen2N2 fallback) against std::unordered_multimap: insert / emplace / emplace_hint in twelve spellings (lvalue, rvalue, "
+             "convertible pair, hinted, std::piecewise_construct with a key of another type = key built in a buffer), count, equal_range, find (const and non-const), "
              "contains, erase(key), erase(iterator) from lookups and from traversal, erase(it, next(it)), erase(first,last) with same-provenance "
              "ends (legal: empty | single | one whole key group | whole container; everything else must throw invalid_argument and change "
              "nothing), erase_if, ==/!=, copy, move, swap, clear, plus a scripted scenario: same pairs in another insertion order plus a "
